@@ -1,6 +1,6 @@
 (* name -> extracted machine *)
 let machines : (string * Base.machine) list = [
-  "event", Event.machine;
+  "event", EventSpec.machine;
   "mutex", MutexSpec.machine;
   "semaphore", SemaphoreSpec.machine;
   "mpmc", MpmcStream.machine;
